@@ -451,6 +451,8 @@ var childItems = []string{
 	`<g fill="url(#p)" stroke="lightslateblue" color="BlanchedAlmond"/>`, `<linearGradient><stop offset="0.50" stop-color="#ffffff"/></linearGradient>`, `<image width="1" height="1" xlink:href="data:image/png;base64,AAAA"/>`,
 	// identifiers that look like numbers, together with a reference to them
 	`<g id="1000"/><use xlink:href="#1000"/>`, `<rect id="1.0" class="010 1e3" width="1000" height="0.50"/>`,
+	// elements whose content is only white space and comments, in every combination that has to be skipped before the end tag
+	`<defs> </defs>`, "<defs>\n  </defs>", `<g> <!--a--></g>`, "<defs>\n<!-- c -->\n</defs>", `<g><!--a--><!--b--></g>`, `<g> <!--a--> <!--b--> </g>`, `<defs><!--a--></defs>`, `<symbol id="s"> </symbol>`,
 	// numeric references to markup characters in text and in attribute values
 	`<text>x &#60; y &#38; z &#x3C;b&#62;</text>`, `<g id="a&#60;b" class="c&#38;d" fill="url(#a&#38;)"/>`, `<a xlink:href="?x=1&#38;y=2" xlink:title="&#34;q&#34; &#39;r&#39;"><path d="M0 0L1 1"/></a>`,
 	// prefixed SVG elements: both tags of an element must keep (or lose) the prefix together
